@@ -6,6 +6,7 @@ import (
 	"go/constant"
 	"go/token"
 	"go/types"
+	"sort"
 	"strings"
 
 	"cvsslint/internal/load"
@@ -118,6 +119,12 @@ func (SOrd) sum()    {}
 func (SArith) sum()  {}
 func (SConv) sum()   {}
 
+// sumKey identifies a summary: the function and, for a specialisation, which parameters are which tables.
+type sumKey struct {
+	fn   *types.Func
+	spec string
+}
+
 type sumErr struct {
 	msg string
 	pos token.Pos
@@ -155,33 +162,48 @@ func (e env) clone() env {
 }
 
 // Summarise returns the (memoised) summary of a module function.
-func (f *Facts) Summarise(fn *types.Func) *Summary {
+func (f *Facts) Summarise(fn *types.Func) *Summary { return f.summarise(fn, nil) }
+
+// summarise: with bound != nil the parameters at those positions (receiver first) are the given literal tables -
+// a specialisation for one call site of a helper that ranges over a table it is handed.
+func (f *Facts) summarise(fn *types.Func, bound map[int]*Table) *Summary {
 	if fn == nil {
 		return &Summary{Err: "nil function"}
 	}
 	fn = fn.Origin()
-	if s, ok := f.sums[fn]; ok {
+	key := sumKey{fn: fn}
+	if len(bound) > 0 {
+		var idx []int
+		for i := range bound {
+			idx = append(idx, i)
+		}
+		sort.Ints(idx)
+		for _, i := range idx {
+			key.spec += fmt.Sprintf("%d=%p;", i, bound[i])
+		}
+	}
+	if s, ok := f.sums[key]; ok {
 		return s
 	}
 	s := &Summary{Fn: fn, Reads: map[*Table]bool{}}
-	if f.busy[fn] {
+	if f.busy[key] {
 		s.Err = "recursive call chain through " + load.FuncName(fn)
 		return s
 	}
-	f.busy[fn] = true
-	defer func() { f.busy[fn] = false }()
+	f.busy[key] = true
+	defer func() { f.busy[key] = false }()
 	decl := f.Prog.Decl(fn)
 	pk := f.Prog.PkgOf(fn)
 	if decl == nil || decl.Body == nil || pk == nil || !load.IsLib(pk.PkgPath) {
 		s.Err = "no source body in the library packages"
-		f.sums[fn] = s
+		f.sums[key] = s
 		return s
 	}
 	sig := fn.Type().(*types.Signature)
 	if sig.Results().Len() != 1 {
 		s.Err = "not a single-result function"
 		s.ErrPos = decl.Pos()
-		f.sums[fn] = s
+		f.sums[key] = s
 		return s
 	}
 	tr := &translator{f: f, info: pk.TypesInfo, s: s}
@@ -192,7 +214,12 @@ func (f *Facts) Summarise(fn *types.Func) *Summary {
 	for i := 0; i < sig.Params().Len(); i++ {
 		s.Params = append(s.Params, sig.Params().At(i))
 	}
-	for _, pv := range s.Params {
+	for i, pv := range s.Params {
+		if t := bound[i]; t != nil {
+			e[pv] = STable{t}
+			s.Reads[t] = true
+			continue
+		}
 		e[pv] = SParam{pv}
 	}
 	func() {
@@ -211,7 +238,7 @@ func (f *Facts) Summarise(fn *types.Func) *Summary {
 			panic(sumErr{"a path falls off the end of the function", decl.Body.Rbrace})
 		}
 	}()
-	f.sums[fn] = s
+	f.sums[key] = s
 	return s
 }
 
@@ -1037,6 +1064,20 @@ func numOf(v Value) (constant.Value, bool) {
 func (f *Facts) Eval(fn *types.Func, args ...Value) Value {
 	s := f.Summarise(fn)
 	if s.Err != "" {
+		// a helper that loops over a table it is handed: summarise it for this table
+		bound := map[int]*Table{}
+		for i, a := range args {
+			if a.Kind == VTable && a.T != nil {
+				bound[i] = a.T
+			}
+		}
+		if len(bound) > 0 {
+			if s2 := f.summarise(fn, bound); s2.Err == "" {
+				s = s2
+			}
+		}
+	}
+	if s.Err != "" {
 		return Value{Kind: VInvalid, Why: fmt.Sprintf("%s is not summarised: %s (%s)", load.FuncName(fn), s.Err, f.Prog.Pos(s.ErrPos))}
 	}
 	if len(args) != len(s.Params) {
@@ -1334,24 +1375,51 @@ func (f *Facts) EvalCallExpr(info *types.Info, call *ast.CallExpr) Value {
 	return f.Eval(callee, args...)
 }
 
+// calleeSummary: the summary a call evaluates: the callee's own, or - when that one is outside the fragment and
+// the call hands it literal tables - the specialisation for these tables.
+func (f *Facts) calleeSummary(c SCall) *Summary {
+	s := f.Summarise(c.Fn)
+	if s.Err == "" {
+		return s
+	}
+	bound := map[int]*Table{}
+	for i, a := range c.Args {
+		if st, ok := a.(STable); ok {
+			bound[i] = st.T
+		}
+	}
+	if len(bound) > 0 {
+		if s2 := f.summarise(c.Fn, bound); s2.Err == "" {
+			return s2
+		}
+	}
+	return s
+}
+
 // TablesRead returns the tables read by fn or by summarised functions it calls.
 func (f *Facts) TablesRead(fn *types.Func) map[*Table]bool {
 	out := map[*Table]bool{}
 	seen := map[*types.Func]bool{}
 	var walkSum func(s Sum)
-	var visit func(fn *types.Func)
-	visit = func(fn *types.Func) {
-		if seen[fn] {
+	seenSum := map[*Summary]bool{}
+	visitSum := func(s *Summary) {
+		if seenSum[s] {
 			return
 		}
-		seen[fn] = true
-		s := f.Summarise(fn)
+		seenSum[s] = true
 		for t := range s.Reads {
 			out[t] = true
 		}
 		if s.Body != nil {
 			walkSum(s.Body)
 		}
+	}
+	visit := func(fn *types.Func) {
+		if seen[fn] {
+			return
+		}
+		seen[fn] = true
+		visitSum(f.Summarise(fn))
 	}
 	walkSum = func(s Sum) {
 		switch x := s.(type) {
@@ -1366,7 +1434,7 @@ func (f *Facts) TablesRead(fn *types.Func) map[*Table]bool {
 			walkSum(x.Val)
 			walkSum(x.Else)
 		case SCall:
-			visit(x.Fn)
+			visitSum(f.calleeSummary(x))
 			for _, a := range x.Args {
 				walkSum(a)
 			}
@@ -1406,16 +1474,22 @@ func (f *Facts) StringConsts(fn *types.Func) map[string]bool {
 	out := map[string]bool{}
 	seen := map[*types.Func]bool{}
 	var walkSum func(s Sum)
-	var visit func(fn *types.Func)
-	visit = func(fn *types.Func) {
+	seenSum := map[*Summary]bool{}
+	visitSum := func(s *Summary) {
+		if seenSum[s] {
+			return
+		}
+		seenSum[s] = true
+		if s.Body != nil {
+			walkSum(s.Body)
+		}
+	}
+	visit := func(fn *types.Func) {
 		if seen[fn] {
 			return
 		}
 		seen[fn] = true
-		s := f.Summarise(fn)
-		if s.Body != nil {
-			walkSum(s.Body)
-		}
+		visitSum(f.Summarise(fn))
 	}
 	walkSum = func(s Sum) {
 		switch x := s.(type) {
@@ -1434,7 +1508,7 @@ func (f *Facts) StringConsts(fn *types.Func) map[string]bool {
 			walkSum(x.Val)
 			walkSum(x.Else)
 		case SCall:
-			visit(x.Fn)
+			visitSum(f.calleeSummary(x))
 			for _, a := range x.Args {
 				walkSum(a)
 			}
